@@ -328,6 +328,8 @@ where
             garbages.push(record);
         }
 
+        self.metrics.memory_usage.decrease(self.usage as _);
+        self.usage = 0;
         self.entries = 0;
         if count > 0 {
             self.metrics.memory_entries.decrease(count);
